@@ -18,7 +18,12 @@ int main(int argc, char** argv) {
         int kind = only >= 0 ? only : (k % K_NKINDS); int pair = r.I(0, 7); bool onman = (k / K_NKINDS) % 3 == 2;
         try {
             ConSystem cs; cs.buildTree(r, onman || kind == K_WELD);
+            // every other round a second, one-row mobility constraint shares the system (added before or after the main one) so that
+            // the main constraint's rows sit at an offset inside G / the error vectors (row assembly: holonomic, nonholonomic, acc-only blocks)
+            int extra = (k / K_NKINDS) % 2 == 1 ? r.I(1, 2) : 0; int extraKind = r.I(0, 1) ? K_CCOORD : K_CSPEED;
+            if (extra == 1) cs.addMobilityConstraint(r, extraKind);
             ConDesc d = kind <= K_NOSLIP ? cs.addBodyConstraint(r, kind, pair) : cs.addMobilityConstraint(r, kind);
+            if (extra == 2) cs.addMobilityConstraint(r, extraKind);
             cs.finish(r);
             State& s = cs.state; const SimbodyMatterSubsystem& m = cs.matter;
             if (onman) { cs.sys.realize(s, Stage::Velocity); cs.sys.project(s, 1e-12); }
@@ -28,10 +33,16 @@ int main(int argc, char** argv) {
             int nu = s.getNU(), nq = s.getNQ(), NB = m.getNumBodies();
             Vector udot(nu), lam(mm), uu(nu); for (int i = 0; i < nu; ++i) { udot[i] = r.U(-1, 1); uu[i] = r.U(-1, 1); }
             for (int i = 0; i < mm; ++i) lam[i] = r.U(-1, 1);
+            // rows of this constraint inside the system-wide vectors/matrices, and the multipliers padded with zeros for the other constraint
+            MultiplierIndex px0, vx0, ax0; c.getIndexOfMultipliersInUse(s, px0, vx0, ax0);
+            std::vector<int> rowsOfMain; for (int i = 0; i < mp; ++i) rowsOfMain.push_back(px0 + i); for (int i = 0; i < mv; ++i) rowsOfMain.push_back(vx0 + i); for (int i = 0; i < ma; ++i) rowsOfMain.push_back(ax0 + i);
+            const int mSys = s.getNMultipliers(), mpSys = s.getNQErr();
+            Vector lamSys(mSys, Real(0)); for (int i = 0; i < mm; ++i) lamSys[rowsOfMain[i]] = lam[i];
+            auto slice = [&](const Vector& v) { Vector o(mm); for (int i = 0; i < mm; ++i) o[i] = v[rowsOfMain[i]]; return o; };
             Vector_<SpatialVec> AG; m.calcBodyAccelerationFromUDot(s, udot, AG);
             Vector qdd; m.calcQDotDot(s, udot, qdd);
-            std::printf("CASE %d %d %s pair %d onman %d euler %d nu %d nq %d m %d %d %d types %d %d %d %d\n", k, kind, CKNAMES[kind], pair, (int)onman, (int)cs.euler,
-                        nu, nq, mp, mv, ma, cs.types[0], cs.types[1], cs.types[2], cs.types[3]);
+            std::printf("CASE %d %d %s pair %d onman %d euler %d nu %d nq %d m %d %d %d types %d %d %d %d extra %d rowoffset %d\n", k, kind, CKNAMES[kind], pair, (int)onman, (int)cs.euler,
+                        nu, nq, mp, mv, ma, cs.types[0], cs.types[1], cs.types[2], cs.types[3], extra, mm ? rowsOfMain[0] : 0);
             std::printf("TINY %a\n", (double)TinyReal);
             std::printf("PAR"); pReals(d.par); std::printf("\n");
             pvec("LAM", lam); pvec("UU", uu); pvec("UDOT", udot);
@@ -64,7 +75,7 @@ int main(int argc, char** argv) {
             // ---------------- implementation results
             pvec("OUT PERR", c.getPositionErrorsAsVector(s));
             pvec("OUT VERR", c.getVelocityErrorsAsVector(s));
-            Vector pvaerr; m.calcConstraintAccelerationErrors(s, udot, pvaerr); pvec("OUT AERR", pvaerr);
+            Vector pvaerr; m.calcConstraintAccelerationErrors(s, udot, pvaerr); pvec("OUT AERR", slice(pvaerr));
             Vector_<SpatialVec> FA; Vector mobF; c.calcConstraintForcesFromMultipliers(s, lam, FA, mobF);
             for (int i = 0; i < FA.size(); ++i) { std::printf("OUT FA %d", (int)c.getMobilizedBodyFromConstrainedBody(ConstrainedBodyIndex(i)).getMobilizedBodyIndex()); psv(FA[i]); std::printf("\n"); }
             if (kind > K_NOSLIP) {
@@ -72,19 +83,19 @@ int main(int argc, char** argv) {
                 pvec("OUT MOBF", mobF);
             }
             Matrix G; m.calcG(s, G);
-            for (int j = 0; j < nu; ++j) { std::printf("OUT GCOL %d", j); for (int i = 0; i < G.nrow(); ++i) std::printf(" %a", G(i, j)); std::printf("\n"); }
-            Vector Gu; m.multiplyByG(s, uu, Gu); pvec("OUT GU", Gu);
-            Vector Gtl; m.multiplyByGTranspose(s, lam, Gtl); pvec("OUT GTL", Gtl);
-            Matrix Gt; m.calcGTranspose(s, Gt); Vector Gtl2 = Gt * lam; pvec("OUT GTMATL", Gtl2);
-            Vector bias; m.calcBiasForMultiplyByG(s, bias); pvec("OUT GBIAS", bias);
-            Vector abias; m.calcBiasForAccelerationConstraints(s, abias); pvec("OUT ABIAS", abias);
-            { Vector z(nu, Real(0)), e0; m.calcConstraintAccelerationErrors(s, z, e0); pvec("OUT AERR0", e0); }
+            for (int j = 0; j < nu; ++j) { std::printf("OUT GCOL %d", j); for (int i = 0; i < mm; ++i) std::printf(" %a", G(rowsOfMain[i], j)); std::printf("\n"); }
+            Vector Gu; m.multiplyByG(s, uu, Gu); pvec("OUT GU", slice(Gu));
+            Vector Gtl; m.multiplyByGTranspose(s, lamSys, Gtl); pvec("OUT GTL", Gtl);
+            Matrix Gt; m.calcGTranspose(s, Gt); Vector Gtl2 = Gt * lamSys; pvec("OUT GTMATL", Gtl2);
+            Vector bias; m.calcBiasForMultiplyByG(s, bias); pvec("OUT GBIAS", slice(bias));
+            Vector abias; m.calcBiasForAccelerationConstraints(s, abias); pvec("OUT ABIAS", slice(abias));
+            { Vector z(nu, Real(0)), e0; m.calcConstraintAccelerationErrors(s, z, e0); pvec("OUT AERR0", slice(e0)); }
             if (mp) {
                 Matrix Pq; m.calcPq(s, Pq);
-                for (int j = 0; j < nq; ++j) { std::printf("OUT PQCOL %d", j); for (int i = 0; i < Pq.nrow(); ++i) std::printf(" %a", Pq(i, j)); std::printf("\n"); }
+                for (int j = 0; j < nq; ++j) { std::printf("OUT PQCOL %d", j); for (int i = 0; i < mp; ++i) std::printf(" %a", Pq(px0 + i, j)); std::printf("\n"); }
                 Vector qlike(nq); for (int i = 0; i < nq; ++i) qlike[i] = s.getQDot()[i];
-                Vector PqQ; m.multiplyByPq(s, qlike, PqQ); pvec("OUT PQQDOT", PqQ); pvec("OUT QDOT", qlike);
-                Vector lamp(mp); for (int i = 0; i < mp; ++i) lamp[i] = lam[i];
+                Vector PqQ; m.multiplyByPq(s, qlike, PqQ); Vector PqQm(mp); for (int i = 0; i < mp; ++i) PqQm[i] = PqQ[px0 + i]; pvec("OUT PQQDOT", PqQm); pvec("OUT QDOT", qlike);
+                Vector lamp(mpSys, Real(0)); for (int i = 0; i < mp; ++i) lamp[px0 + i] = lam[i];
                 Vector Pqtl; m.multiplyByPqTranspose(s, lamp, Pqtl); pvec("OUT PQTL", Pqtl);
             }
             std::printf("END\n");
